@@ -6,11 +6,11 @@
    int32 length at tag 0, the bytes).
 
    The decoder is mirrored statement by statement, including what it does NOT check: the result of the first
-   SkipTo (`have`) is ignored, fields with tag 0 between key and value are skipped, a later equal key overwrites an earlier one. Loop iterations and
+   SkipTo (`have`) is ignored (harmless once the lookup is required), fields with tag 0 between key and value are skipped, a later equal key overwrites an earlier one. Loop iterations and
    the bytes allocated for keys and buffers are explicit outputs, so that "terminates in a number of steps
-   and with an allocation linear in the input" is a statement about the model. [kreq] / [vreq] are the
-   `require` flags of the key and of the value lookup: both true in the repaired code (b18cffe, 5664fef), both
-   false in the pinned snapshot (kept as parameters to exhibit the two defects on the same model).
+   and with an allocation linear in the input" is a statement about the model. [mreq] / [kreq] / [vreq] are the
+   `require` flags of the map, key and value lookups: all true in the repaired code (fa80196, b18cffe, 5664fef),
+   all false in the pinned snapshot (kept as parameters to exhibit the defects on the same model).
 
    Definitions only; proofs are in TupProofs.v. *)
 From Coq Require Import List NArith ZArith Lia Bool Arith.
@@ -102,11 +102,11 @@ Fixpoint dec_loop (kreq vreq : bool) (fuel : nat) (n : Z) (bs : list N) : tout :
   end.
 
 Definition t_err : tout := mk_tout TSErr [] [] 0 0.
-Definition tup_decode_gen (kreq vreq : bool) (loop_fuel : list N -> Z -> nat) (bs : list N) : tout :=
-  match skip_to (fuel_for bs) tMAP 0 false bs with
+Definition tup_decode_gen (mreq kreq vreq : bool) (loop_fuel : list N -> Z -> nat) (bs : list N) : tout :=
+  match skip_to (fuel_for bs) tMAP 0 mreq bs with
   | SeekErr => t_err
   | SeekFuel => mk_tout TSFuel [] bs 0 0
-  | Found _ r | NotFound r =>                               (* `_, err = is.SkipTo(...)`: have is ignored *)
+  | Found _ r | NotFound r =>                               (* `_, err = is.SkipTo(...)`: have is ignored (NotFound only when mreq = false) *)
       match read_count r with
       | CErr _ => t_err
       | COk n r1 => dec_loop kreq vreq (loop_fuel r1 n) n r1
@@ -114,11 +114,13 @@ Definition tup_decode_gen (kreq vreq : bool) (loop_fuel : list N -> Z -> nat) (b
   end.
 
 (* the repaired decoder: every iteration consumes input, so the bytes left bound the iterations *)
-Definition tup_decode (bs : list N) : tout := tup_decode_gen true true (fun r _ => S (length r)) bs.
+Definition tup_decode (bs : list N) : tout := tup_decode_gen true true true (fun r _ => S (length r)) bs.
 (* the decoder of the pinned snapshot (key optional, value optional): only the announced count bounds the iterations *)
-Definition tup_decode_pinned (bs : list N) : tout := tup_decode_gen false false (fun _ n => Z.to_nat n) bs.
+Definition tup_decode_pinned (bs : list N) : tout := tup_decode_gen false false false (fun _ n => Z.to_nat n) bs.
 (* after b18cffe (key required), before 5664fef (value still optional) *)
-Definition tup_decode_b18cffe (bs : list N) : tout := tup_decode_gen true false (fun r _ => S (length r)) bs.
+Definition tup_decode_b18cffe (bs : list N) : tout := tup_decode_gen false true false (fun r _ => S (length r)) bs.
+(* after 5664fef (value required), before fa80196 (map lookup still optional, its result ignored) *)
+Definition tup_decode_5664fef (bs : list N) : tout := tup_decode_gen false true true (fun r _ => S (length r)) bs.
 
 (* the attribute set after Decode into a set holding [prior] *)
 Definition decoded_into (prior : attrs) (o : tout) : attrs := dedupe (prior ++ t_ins o).
